@@ -19,6 +19,11 @@ ASSUMPTIONS = []
 MAXF = float(np.finfo(float).max)
 
 
+def pre_build():
+    import translate
+    return [translate.gen_formulas_c09()]
+
+
 def gen_cases(rng, tier):
     n = {'quick': 40, 'thorough': 400, 'search': 40}[tier]
     cases = []
